@@ -121,11 +121,10 @@ IP::IP(const uint8_t* buffer, uint32_t total_sz) {
             }
         }
         else if (opt_type == END) {
-            // If the end option found, we're done
-            if (TINS_UNLIKELY(stream.pointer() != options_end)) {
-                // Make sure we found the END option at the end of the options list
-                throw malformed_packet();
-            }
+            // If the end option found, we're done. It need not coincide with the end
+            // of the header (RFC 791): whatever follows up to the header length is
+            // padding, e.g. the zeros write_serialization appends
+            stream.skip(static_cast<uint32_t>(options_end - stream.pointer()));
             break;
         }
         else {
